@@ -163,17 +163,14 @@ static void h_op(void)
   }
   if (!bf) { h_out("bad-op"); return; }
 
-  /* Operations OUTSIDE the API contract (try...): executed only if they respect the residual duties of the caller
-   * (lean/EaselModel/Buffer/Safe.lean: SafeOp, evaluated here on the real ESL_BUFFER), else answered "unsafe":
-   *   Set(p, k)        : p + k stays within the loaded bytes
-   *   SetOffset(o)     : rewinding inside the window: not before the active anchor
-   *   Set[Stable]Anchor: inside the window only at or before the cursor                                           */
+  /* Operations OUTSIDE the API contract (try...): executed unless they violate the one duty left to the caller
+   * (lean/EaselModel/Buffer/Safe.lean: CallerOk, evaluated here on the real ESL_BUFFER), then answered "unsafe":
+   *   Set(p, k) : p + k stays within the loaded bytes (undefined by the documentation, unchecked by the code)
+   * SetOffset / SetAnchor / SetStableAnchor have a defined outcome for every argument (theorem history_total).      */
   if (!strncmp(op, "try", 3)) {
-    int safe = 1; int64_t o = h_argi("o", 0), k = h_argi("k", 0);
+    int safe = 1; int64_t k = h_argi("k", 0);
     if      (!strcmp(op, "tryset"))       safe = !lastp_ok || (lastp - bf->mem) + k <= bf->n;
-    else if (!strcmp(op, "trysetoffset")) safe = (bf->anchor == -1 || !(bf->baseoffset <= o) || bf->baseoffset + bf->anchor <= o);
-    else if (!strcmp(op, "trysetanchor") || !strcmp(op, "trysetstable"))
-                                          safe = (bf->fp == NULL || o <= bf->baseoffset + bf->pos || bf->baseoffset + bf->n < o);
+    else if (!strcmp(op, "trysetoffset") || !strcmp(op, "trysetanchor") || !strcmp(op, "trysetstable")) safe = 1;
     else { h_out("bad-op"); return; }
     if (!safe) { lastp_ok = 0; h_out("unsafe"); return; }
     op += 3;
